@@ -165,6 +165,7 @@ def check(case, ignore_regions=False) -> Outcome:
     if cond_activation:
         labels.add("activation-of-conditional-term")
     # family of models
+    declared = {d["pop"]: set(d["Z"]) for d in doms}
     target = SCM(g, case["mseed"], max_card=case["max_card"], clique_mode=case["clique"])
     for redraw in range(2):
         models = {"pi*": target}
@@ -176,6 +177,11 @@ def check(case, ignore_regions=False) -> Outcome:
                 raise TypeError("plain P term in a transport estimand")
             if pop not in models:
                 raise TypeError(f"undeclared population {pop}")
+            # only the declared distributions exist: the target's observational joint and, per source domain,
+            # experiments on subsets of its declared experimental variables
+            allowed = set() if pop == "pi*" else declared[pop]
+            if not set(do) <= allowed:
+                raise TypeError(f"distribution not declared: {pop} under do({sorted(do)})")
             return models[pop].joint(do)
 
         ev = Evaluator(target.card, provider)
